@@ -183,16 +183,16 @@ def check_typing(rep, rule, C, rel, fn, selfname="self"):
             rep.ok(rule, C, f"{norm_src(tg)} <- tags {sorted(vt)}")
     # two-element concatenations: position 0 <-> body 1, position 1 <-> body 2
     for c in walk_no_nested(fn):
-        if isinstance(c, ast.Call) and (dotted(c.func) or "").split(".")[-1] in ("concatenate", "hstack", "vstack") and c.args \
+        if isinstance(c, ast.Call) and (dotted(c.func) or "").split(".")[-1] in ("concatenate", "hstack") and c.args \
                 and isinstance(c.args[0], (ast.Tuple, ast.List)) and len(c.args[0].elts) == 2:
             parts = c.args[0].elts
             t0, t1 = info.expr_tags(parts[0]), info.expr_tags(parts[1])
             b0 = {b for (_, b) in t0}
             b1 = {b for (_, b) in t1}
-            if not (b0 or b1):
-                continue
+            if not (b0 or b1) or b0 == b1:
+                continue  # not a body-1 | body-2 concatenation (e.g. two rows of the same body)
             n += 1
-            if (2 in b0 and 1 not in b0) or (1 in b1 and 2 not in b1) or (b0 and b0 == b1):
+            if (2 in b0 and 1 not in b0) or (1 in b1 and 2 not in b1):
                 rep.bad(rule, C, c, f"two-body concatenation `{norm_src(c)[:100]}`: the first part must hold body-1 quantities and the second body-2 quantities "
                         f"(found bodies {sorted(b0)} and {sorted(b1)})", f"{rel}:{c.lineno}")
             else:
@@ -201,102 +201,179 @@ def check_typing(rep, rule, C, rel, fn, selfname="self"):
 
 
 # ------------------------------------------------------------------ polarity
-def _sign_of_siblings(call, arg):
+def csign(e, defs=None, depth=0):
+    """syntactic sign of a cofactor: -x, (-a) * b, ax2skew(-a), ... (linear wrappers keep the sign of their argument)."""
+    if isinstance(e, ast.UnaryOp) and isinstance(e.op, ast.USub):
+        return -csign(e.operand, defs, depth)
+    if isinstance(e, ast.BinOp) and isinstance(e.op, (ast.Mult, ast.MatMult, ast.Div)):
+        return csign(e.left, defs, depth) * csign(e.right, defs, depth)
+    if isinstance(e, ast.Call) and (dotted(e.func) or "").split(".")[-1] in ("ax2skew", "array", "asarray", "transpose") and len(e.args) == 1:
+        return csign(e.args[0], defs, depth)
+    if isinstance(e, ast.Attribute) and e.attr == "T":
+        return csign(e.value, defs, depth)
+    if isinstance(e, ast.Subscript):
+        return csign(e.value, defs, depth)
+    if isinstance(e, ast.Name) and defs and depth < 8:
+        d = defs.get(e.id)
+        if d and len(d) == 1 and d[0] is not None:
+            return csign(d[0], defs, depth + 1)
+    return 1
+
+
+def _strip_sign(e):
+    while isinstance(e, ast.UnaryOp) and isinstance(e.op, ast.USub):
+        e = e.operand
+    return e
+
+
+def _sign_of_siblings(call, arg, defs=None):
     s = 1
     for a in call.args:
         if a is arg:
             continue
-        if isinstance(a, ast.UnaryOp) and isinstance(a.op, ast.USub):
-            s = -s
-        elif isinstance(a, ast.BinOp) and isinstance(a.op, ast.Mult) and isinstance(a.left, ast.UnaryOp) and isinstance(a.left.op, ast.USub):
-            s = -s  # -la_g[3 + i] * n
+        s *= csign(a, defs)
     return s
 
 
 LINEAR_CALLS = {"einsum", "cross3", "outer", "ax2skew", "hstack", "vstack", "concatenate", "array", "dot", "reshape", "asarray", "cross"}
 
 
-def occurrences(info: FnInfo, fn):
-    """[(family, body, sign, stmt)] for every occurrence of a body-tagged kinematic name in a statement's value; the sign is the
-    product of syntactic signs on the path from the statement's value root (locals defined as -expr are followed)."""
+DERIV_NAME = re.compile(r"(_q|_u|_q1_q2)$|^(W_|Wla_)")
+
+
+def occurrences(info: FnInfo, fn, tagged_only=None):
+    """[(family, body, sign, stmt, name)] for the occurrences of body-indexed kinematic names in the statements that build the
+    routine's result (subscript stores, augmented stores, return values); locals are inlined through their single
+    definition with the sign of the path.  In derivative routines only the *differentiated* factors count, i.e. names that
+    carry a q/u tag of a body (..._q1, J_J2, ...): undifferentiated cofactors such as r_J1J2 mix both bodies by nature."""
+    if tagged_only is None:
+        tagged_only = bool(DERIV_NAME.search(getattr(fn, "name", "")))
     out = []
-    neg_locals = {}
+    defs = {}
+    scalar_locals = set()
     for n in walk_no_nested(fn):
         if isinstance(n, ast.Assign) and len(n.targets) == 1 and isinstance(n.targets[0], ast.Name):
+            defs.setdefault(n.targets[0].id, []).append(n.value)
             v = n.value
             if isinstance(v, ast.UnaryOp) and isinstance(v.op, ast.USub):
-                neg_locals[n.targets[0].id] = -1
+                v = v.operand
+            if isinstance(v, ast.Constant) and isinstance(v.value, (int, float)):
+                scalar_locals.add(n.targets[0].id)
+        elif isinstance(n, ast.AugAssign) and isinstance(n.target, ast.Name):
+            defs.setdefault(n.target.id, []).extend([None, None])  # accumulated local: not inlined
 
-    def rec(e, sign, stmt):
+    def unknown_scalar(e):
+        return isinstance(e, ast.Name) and e.id in scalar_locals
+
+    def emit(name, sign, stmt):
+        fam = family_of(name)
+        if not fam:
+            return
+        if tagged_only and not name_tags(name):
+            return
+        out.append((fam[0], fam[1], sign, stmt, name))
+
+    def rec(e, sign, stmt, depth=0):
+        if depth > 12:
+            return
         if isinstance(e, ast.UnaryOp) and isinstance(e.op, ast.USub):
-            rec(e.operand, -sign, stmt)
+            rec(e.operand, -sign, stmt, depth)
         elif isinstance(e, ast.BinOp):
             if isinstance(e.op, ast.Add):
-                rec(e.left, sign, stmt)
-                rec(e.right, sign, stmt)
+                rec(e.left, sign, stmt, depth)
+                rec(e.right, sign, stmt, depth)
             elif isinstance(e.op, ast.Sub):
-                rec(e.left, sign, stmt)
-                rec(e.right, -sign, stmt)
+                rec(e.left, sign, stmt, depth)
+                rec(e.right, -sign, stmt, depth)
             elif isinstance(e.op, (ast.Mult, ast.MatMult, ast.Div)):
                 # explicit negation of the cofactor flips the polarity of the other operand
-                ls = -1 if isinstance(e.left, ast.UnaryOp) and isinstance(e.left.op, ast.USub) else 1
-                rs = -1 if isinstance(e.right, ast.UnaryOp) and isinstance(e.right.op, ast.USub) else 1
-                rec(e.left.operand if ls == -1 else e.left, sign * ls * rs, stmt)
+                # the sign of each operand is the sign of its cofactor times the path sign; the operand's own leading minus
+                # is handled when it is visited
+                if unknown_scalar(e.left) or unknown_scalar(e.right):
+                    sign = 0
+                rec(e.left, sign * csign(e.right, defs), stmt, depth)
                 if not isinstance(e.op, ast.Div):
-                    rec(e.right.operand if rs == -1 else e.right, sign * ls * rs, stmt)
+                    rec(e.right, sign * csign(e.left, defs), stmt, depth)
         elif isinstance(e, ast.Call):
             f = (dotted(e.func) or "").split(".")[-1]
             if isinstance(e.func, ast.Attribute) and isinstance(e.func.value, ast.Name) and e.func.value.id == info.sn:
-                fam = family_of(e.func.attr)
-                if fam:
-                    out.append((fam[0], fam[1], sign, stmt, e.func.attr))
+                emit(e.func.attr, sign, stmt)
+                return
+            if not f and isinstance(e.func, ast.Attribute) and e.func.attr in ("reshape", "transpose", "copy", "squeeze"):
+                rec(e.func.value, sign, stmt, depth)  # (...).reshape(...)
                 return
             if f in LINEAR_CALLS:
                 for a in e.args:
                     if isinstance(a, (ast.List, ast.Tuple)):
                         for x in a.elts:
-                            rec(x, sign, stmt)
+                            rec(x, sign, stmt, depth)
                     else:
-                        rec(a, sign * _sign_of_siblings(e, a), stmt)
+                        rec(a, sign * _sign_of_siblings(e, a, defs), stmt, depth)
         elif isinstance(e, ast.Attribute):
             if e.attr == "T":
-                rec(e.value, sign, stmt)
+                rec(e.value, sign, stmt, depth)
         elif isinstance(e, ast.Subscript):
-            rec(e.value, sign, stmt)
+            rec(e.value, sign, stmt, depth)
         elif isinstance(e, ast.Name):
-            s2 = sign * neg_locals.get(e.id, 1)
-            for (fam, body) in info.lfam.get(e.id, set()):
-                out.append((fam, body, s2, stmt, e.id))
+            d = defs.get(e.id)
+            if d and len(d) == 1 and d[0] is not None:
+                rec(d[0], sign, stmt, depth + 1)
         elif isinstance(e, (ast.List, ast.Tuple)):
             for x in e.elts:
-                rec(x, sign, stmt)
+                rec(x, sign, stmt, depth)
 
     for n in walk_no_nested(fn):
-        if isinstance(n, (ast.Assign, ast.AugAssign)):
-            tgt = n.targets[0] if isinstance(n, ast.Assign) else n.target
-            # only statements that store into the result (subscript stores) or compute a named part used later; locals that
-            # merely alias one call are resolved through lfam, so skip plain single-call aliases
-            v = n.value
-            if isinstance(tgt, ast.Name) and isinstance(v, ast.Call) and isinstance(v.func, ast.Attribute) and isinstance(v.func.value, ast.Name) and v.func.value.id == info.sn:
-                continue
-            base_sign = -1 if (isinstance(n, ast.AugAssign) and isinstance(n.op, ast.Sub)) else 1
-            rec(v, base_sign, n)
+        if isinstance(n, ast.Assign) and len(n.targets) == 1 and isinstance(n.targets[0], ast.Subscript):
+            rec(n.value, 1, n)
+        elif isinstance(n, ast.AugAssign) and isinstance(n.target, ast.Subscript):
+            rec(n.value, -1 if isinstance(n.op, ast.Sub) else 1, n)
         elif isinstance(n, ast.Return) and n.value is not None:
             rec(n.value, 1, n)
     return out
 
 
 def relative_polarity(info, fn):
-    """{family: rho} with rho = sign(body 2)/sign(body 1) when both are determinate in fn (all occurrences agree)."""
+    """{(family, tag kind): rho} with rho = sign(body 2)/sign(body 1) when both are determinate in fn (all occurrences of that
+    kind agree).  Tag kind = which derivative tags the name carries ('', 'q', 'u', 'qu'): a second-derivative routine mixes
+    d(J)/dq terms and J * d(n)/dq terms, whose signs are judged separately."""
     occ = occurrences(info, fn)
+    groups = {}
+    for (f, b, sg, st, nm) in occ:
+        kinds = "".join(sorted({k for (k, _) in name_tags(nm)}))
+        groups.setdefault((f, kinds), {1: set(), 2: set()})[b].add(sg)
     res = {}
-    for fam in ("P", "R"):
-        s = {1: set(), 2: set()}
-        for (f, b, sg, st, nm) in occ:
-            if f == fam:
-                s[b].add(sg)
+    for key, s in groups.items():
         if len(s[1]) == 1 and len(s[2]) == 1:
-            res[fam] = list(s[2])[0] * list(s[1])[0]
+            res[key] = list(s[2])[0] * list(s[1])[0]
         elif s[1] or s[2]:
-            res[fam] = None
+            res[key] = None
     return res, occ
+
+
+def check_polarity(rep, rule, ci, methods, rel=None):
+    """all methods of one derivative family in which the body-2 : body-1 sign ratio is syntactically determinate agree."""
+    rel = rel or ci.rel
+    seen = {}
+    for name in methods:
+        fn = ci.methods.get(name)
+        if fn is None:
+            continue
+        info = FnInfo(fn)
+        res, occ = relative_polarity(info, fn)
+        for (fam, kinds), rho in res.items():
+            if rho in (None, 0):
+                continue
+            seen.setdefault(fam, []).append((name + (f" [{kinds}-tagged terms]" if kinds else ""), rho, fn))
+    n = 0
+    for fam, lst in seen.items():
+        ref_name, ref, _ = lst[0]
+        for name, rho, fn in lst:
+            n += 1
+            C = f"{rel}:{ci.qual}.{name.split(' ')[0]}"
+            label = {"P": "point/translational", "R": "rotational"}[fam]
+            if rho == ref:
+                rep.ok(rule, C, f"{label} terms of body 2 enter with relative sign {rho:+d} to those of body 1 (as in `{ref_name}`)")
+            else:
+                rep.bad(rule, C, f"{label} polarity {rho:+d}", f"in `{name}` the {label} terms of body 2 enter with relative sign {rho:+d} to those of body 1, but "
+                        f"{ref:+d} in `{ref_name}`: the quantity depends on the relative kinematics, so one block has the wrong sign", f"{rel}:{fn.lineno}")
+    return n
